@@ -3,6 +3,7 @@ namespace Dcg.Gen.EscTables
 
 def enumTable : List (Char × List Char) :=
   [(Char.ofNat 0, [Char.ofNat 92, Char.ofNat 120, Char.ofNat 48, Char.ofNat 48]),
+   (Char.ofNat 92, [Char.ofNat 92, Char.ofNat 92]),
    (Char.ofNat 39, [Char.ofNat 92, Char.ofNat 39]),
    (Char.ofNat 8, [Char.ofNat 92, Char.ofNat 98]),
    (Char.ofNat 12, [Char.ofNat 92, Char.ofNat 102]),
